@@ -132,9 +132,9 @@ func (c *scriptConn) Writes() [][]byte {
 
 type rawMsg struct{ data []byte }
 
-func (r *rawMsg) Len() uint16                     { return uint16(len(r.data)) }
-func (r *rawMsg) MarshalBinary() ([]byte, error)  { return append([]byte{}, r.data...), nil }
-func (r *rawMsg) UnmarshalBinary(b []byte) error  { r.data = append([]byte{}, b...); return nil }
+func (r *rawMsg) Len() uint16                    { return uint16(len(r.data)) }
+func (r *rawMsg) MarshalBinary() ([]byte, error) { return append([]byte{}, r.data...), nil }
+func (r *rawMsg) UnmarshalBinary(b []byte) error { r.data = append([]byte{}, b...); return nil }
 
 // copyingParser keeps a private copy of every frame: framing is judged exactly,
 // for arbitrary frame contents.
